@@ -287,6 +287,8 @@ def _post(chk, cases, bad, extra):
     import keyed_explore
     keyed_explore.explore(chk, extra, "C01")
     dnc_parent_probe(chk, cases, bad, extra)
+    import wide_explore
+    wide_explore.explore(chk, extra, "C01")
 
 
 def main(tier, replay=None):  # noqa: F811
